@@ -74,24 +74,37 @@ macro_rules! impl_suite {
 
     fn $run(case: &Case, out: &mut Out) {
       let log: Log = Arc::new(Mutex::new(vec![]));
-      let src: $subject = <$subject>::default();
+      let mut src: $subject = <$subject>::default();
+      // field `dead`: the source subject is torn down BEFORE anybody subscribes — the subscription
+      // is closed from the start and no terminal will ever arrive
+      if case.has("dead") {
+        src.clone().unsubscribe();
+      }
+      // field `clones n`: ONE pipeline value, n subscriptions of clones of it
+      let n = if case.has("clones") { case.field("clones")[0].nat() } else { 1 };
       let pipeline = $build(src.clone(), case.field("chain"), &log);
-      let mut sub: Option<$boxsub> = Some(pipeline.actual_subscribe(Probe(log.clone())));
+      let mut subs: Vec<Option<$boxsub>> = vec![];
+      for _ in 0..n {
+        subs.push(Some(pipeline.clone().actual_subscribe(Probe(log.clone()))));
+      }
+      drop(pipeline);
       let drain = |log: &Log| std::mem::take(&mut *log.lock().unwrap());
       for (k, ev) in case.events.iter().enumerate() {
         out.cur = k;
         match ev[0].atom() {
           "emit" => {
-            let mut s = src.clone();
+            let s = &mut src;
             match Notif::parse(&ev[1]) {
               Notif::Next(v) => s.next(v),
-              Notif::Error(e) => s.error(e),
-              Notif::Complete => s.complete(),
+              Notif::Error(e) => s.clone().error(e),
+              Notif::Complete => s.clone().complete(),
             }
           }
           "unsub" => {
-            if let Some(u) = sub.take() {
-              u.unsubscribe();
+            for u in subs.iter_mut() {
+              if let Some(u) = u.take() {
+                u.unsubscribe();
+              }
             }
           }
           e => panic!("unknown event {}", e),
